@@ -1,6 +1,7 @@
 package c01
 
 import (
+	"encoding/json"
 	"fmt"
 	"strconv"
 	"strings"
@@ -217,7 +218,11 @@ func runErrProgram(t failer, c *ev.Collector, p errProgram) (errs int, freshErrs
 		// (RAW values are taken as they come and need not be JSON)
 		if strings.ToLower(cmd[0]) == "jset" && len(cmd) == 5 && !negative(v) &&
 			!strings.Contains(cmd[3], "-1") && !strings.Contains(cmd[3], ":") {
-			if g, err := cResp.Do("JGET", cmd[1], cmd[2], cmd[3]); err == nil && g.Null {
+			// (a string object that was not JSON before is not JSON afterwards either:
+			// garbage in, garbage out, and no path names anything in it)
+			doc, derr := cResp.Do("JGET", cmd[1], cmd[2])
+			if g, err := cResp.Do("JGET", cmd[1], cmd[2], cmd[3]); err == nil && g.Null &&
+				derr == nil && !doc.Null && (doc.Str == "" || json.Valid([]byte(doc.Str))) {
 				c.Fail(t, "errors:jset:ok-but-nothing-written",
 					fmt.Sprintf("step %d %s replied %s but JGET of that path is nil", i, t38.CmdString(cmd), v), p)
 			}
